@@ -66,6 +66,43 @@ def varintField (typ : Nat) (b : Bytes) (limit32 : Bool) : FRes :=
     | none => .panic
     | some rest => .ok v rest
 
+/-- Outcome of one loop iteration after the tag: continue with an updated payload and the remaining
+bytes, or return. -/
+inductive Step
+  | next (p : Payload) (rest : Bytes) | stop (r : PRes)
+
+def ofVarintField (r : FRes) (set : Nat → Payload) : Step :=
+  match r with
+  | .err => .stop .errDetails
+  | .panic => .stop .panic
+  | .ok v rest => .next (set v) rest
+
+/-- The `switch num` of `unmarshalPayloadDetails` (tag already consumed, `b` = bytes after the tag). -/
+def detailsField (p : Payload) (num typ : Nat) (b : Bytes) : Step :=
+  if num = fieldCert then
+    if typ ≠ BytesType then .stop .errDetails else
+    match consumeBytes b with
+    | .error _ => .stop .errDetails
+    | .ok (v, n) =>
+      match sliceFrom b n with
+      | none => .stop .panic
+      | some b => .next { p with cert := v } b
+  else if num = fieldInitiatorIndex then
+    ofVarintField (varintField typ b true) (fun v => { p with initiatorIndex := v })
+  else if num = fieldResponderIndex then
+    ofVarintField (varintField typ b true) (fun v => { p with responderIndex := v })
+  else if num = fieldTime then
+    ofVarintField (varintField typ b false) (fun v => { p with time := v })
+  else if num = fieldCertVersion then
+    ofVarintField (varintField typ b true) (fun v => { p with certVersion := v })
+  else
+    match consumeFieldValue num typ b with
+    | .error _ => .stop .errDetails
+    | .ok n =>
+      match sliceFrom b n with
+      | none => .stop .panic
+      | some b => .next p b
+
 /-- `unmarshalPayloadDetails(p, b)`: the loop `for len(b) > 0`. -/
 def detailsLoop : Nat → Payload → Bytes → PRes
   | 0, _, _ => .stuck
@@ -77,43 +114,31 @@ def detailsLoop : Nat → Payload → Bytes → PRes
       match sliceFrom b n with
       | none => .panic
       | some b =>
-        if num = fieldCert then
-          if typ ≠ BytesType then .errDetails else
-          match consumeBytes b with
-          | .error _ => .errDetails
-          | .ok (v, n) =>
-            match sliceFrom b n with
-            | none => .panic
-            | some b => detailsLoop fuel { p with cert := v } b
-        else if num = fieldInitiatorIndex then
-          match varintField typ b true with
-          | .err => .errDetails
-          | .panic => .panic
-          | .ok v b => detailsLoop fuel { p with initiatorIndex := v } b
-        else if num = fieldResponderIndex then
-          match varintField typ b true with
-          | .err => .errDetails
-          | .panic => .panic
-          | .ok v b => detailsLoop fuel { p with responderIndex := v } b
-        else if num = fieldTime then
-          match varintField typ b false with
-          | .err => .errDetails
-          | .panic => .panic
-          | .ok v b => detailsLoop fuel { p with time := v } b
-        else if num = fieldCertVersion then
-          match varintField typ b true with
-          | .err => .errDetails
-          | .panic => .panic
-          | .ok v b => detailsLoop fuel { p with certVersion := v } b
-        else
-          match consumeFieldValue num typ b with
-          | .error _ => .errDetails
-          | .ok n =>
-            match sliceFrom b n with
-            | none => .panic
-            | some b => detailsLoop fuel p b
+        match detailsField p num typ b with
+        | .stop r => r
+        | .next p b => detailsLoop fuel p b
 
 def unmarshalDetails (p : Payload) (b : Bytes) : PRes := detailsLoop (b.length + 1) p b
+
+/-- The `switch` of `UnmarshalPayload` (tag already consumed). -/
+def payloadField (p : Payload) (num typ : Nat) (b : Bytes) : Step :=
+  if num = 1 ∧ typ = BytesType then
+    match consumeBytes b with
+    | .error _ => .stop .errMessage
+    | .ok (details, n) =>
+      match sliceFrom b n with
+      | none => .stop .panic
+      | some b =>
+        match unmarshalDetails p details with
+        | .ok p => .next p b
+        | r => .stop r
+  else
+    match consumeFieldValue num typ b with
+    | .error _ => .stop .errMessage
+    | .ok n =>
+      match sliceFrom b n with
+      | none => .stop .panic
+      | some b => .next p b
 
 /-- `UnmarshalPayload(b)`: the outer loop. -/
 def payloadLoop : Nat → Payload → Bytes → PRes
@@ -126,23 +151,9 @@ def payloadLoop : Nat → Payload → Bytes → PRes
       match sliceFrom b n with
       | none => .panic
       | some b =>
-        if num = 1 ∧ typ = BytesType then
-          match consumeBytes b with
-          | .error _ => .errMessage
-          | .ok (details, n) =>
-            match sliceFrom b n with
-            | none => .panic
-            | some b =>
-              match unmarshalDetails p details with
-              | .ok p => payloadLoop fuel p b
-              | r => r
-        else
-          match consumeFieldValue num typ b with
-          | .error _ => .errMessage
-          | .ok n =>
-            match sliceFrom b n with
-            | none => .panic
-            | some b => payloadLoop fuel p b
+        match payloadField p num typ b with
+        | .stop r => r
+        | .next p b => payloadLoop fuel p b
 
 def unmarshalPayload (b : Bytes) : PRes := payloadLoop (b.length + 1) {} b
 
